@@ -9,13 +9,14 @@ git apply --check /tmp/confirm_patch.$$ || { echo "RESULT $wt patch-does-not-app
 # demo without patch
 cp /tmp/confirm_demo.$$ tests/demo_mutant.rs
 flags=""; grep -q "redb_verif\|verif_sched\|verif_set" tests/demo_mutant.rs && flags="--cfg redb_verif"
-RUSTFLAGS="$flags" cargo test --offline -p redb@4.2.0 --test demo_mutant > out/confirm_demo_without.log 2>&1; d0=$?
+feat=""; grep -q "experimental_cursor\|cursor_mut\|CursorMut" tests/demo_mutant.rs && feat="--features experimental_cursor"
+RUSTFLAGS="$flags" cargo test --offline -p redb@4.2.0 $feat --test demo_mutant > out/confirm_demo_without.log 2>&1; d0=$?
 git apply /tmp/confirm_patch.$$
-RUSTFLAGS="$flags" cargo test --offline -p redb@4.2.0 --test demo_mutant > out/confirm_demo_with.log 2>&1; d1=$?
+RUSTFLAGS="$flags" cargo test --offline -p redb@4.2.0 $feat --test demo_mutant > out/confirm_demo_with.log 2>&1; d1=$?
 rm -f tests/demo_mutant.rs
 cargo test --offline --no-fail-fast -p redb@4.2.0 > out/confirm_suite_with.log 2>&1; s1=$?
 warn=$(grep -c "^warning: unused\|^warning: .*never" out/confirm_suite_with.log)
 passed=$(grep -E "^test result" out/confirm_suite_with.log | awk '{p+=$4; f+=$6} END {print p" passed "f" failed"}')
 cp /tmp/confirm_demo.$$ tests/demo_mutant.rs
-echo "RESULT $wt demo_without_patch_rc=$d0 demo_with_patch_rc=$d1 suite_with_patch_rc=$s1 ($passed) warnings=$warn flags='$flags'"
+echo "RESULT $wt demo_without_patch_rc=$d0 demo_with_patch_rc=$d1 suite_with_patch_rc=$s1 ($passed) warnings=$warn flags='$flags' features='$feat'"
 rm -f /tmp/confirm_patch.$$ /tmp/confirm_demo.$$
